@@ -163,3 +163,56 @@ class _ArrView:
 
 
 REG.spec("kpos_of", kpos_of_smt, lambda d: {k: i for i, k in enumerate(d)}, "position of each key in the dict's iteration order")
+
+
+# esc(label, i, special, lo): master-file text of the first i octets of an octet string:
+# an octet in `special` is backslash-quoted, a printable octet (lo <= c < 0x7F) is itself, any
+# other octet is \DDD (RFC 1035 5.1) ---------------------------------------------------------
+ESC = {}
+
+
+def _emit(c, special, lo):
+    quoted = z3.Concat(z3.Unit(z3.IntVal(92)), z3.Unit(c))
+    plain = z3.Unit(c)
+    ddd = z3.Concat(z3.Unit(z3.IntVal(92)), z3.Unit(48 + c / 100), z3.Unit(48 + (c / 10) % 10), z3.Unit(48 + c % 10))
+    is_special = z3.Or(*[c == v for v in special]) if special else z3.BoolVal(False)
+    return z3.If(is_special, quoted, z3.If(z3.And(c >= lo, c < 0x7F), plain, ddd))
+
+
+def _esc_smt(special, lo, tag):
+    fn = z3.Function("esc_" + tag, S.SeqI, S.IntS, S.SeqI)
+
+    def smt(I, label, i):
+        from . import models as M
+
+        e = M.as_seq(I, label)
+        iz = to_z3(i)
+        t = fn(e, iz)
+        c = e[iz - 1]
+        I.path.assume(t == z3.If(iz <= 0, z3.Empty(S.SeqI), z3.Concat(fn(e, iz - 1), _emit(c, special, lo))))
+        return SBytes(t, "str")
+
+    return smt
+
+
+def _esc_native(special, lo):
+    def native(label, i):
+        out = ""
+        for c in bytes(label)[:i]:
+            if c in special:
+                out += "\\" + chr(c)
+            elif lo <= c < 0x7F:
+                out += chr(c)
+            else:
+                out += "\\%03d" % c
+        return out
+
+    return native
+
+
+_NAME_SPECIAL = sorted(b'"().;\\@$')
+_QSTR_SPECIAL = sorted(b'"\\')
+REG.spec("esc_name", _esc_smt(_NAME_SPECIAL, 0x21, "name"), _esc_native(_NAME_SPECIAL, 0x21),
+         "RFC 1035 5.1 text of a label: \" ( ) . ; \\ @ $ are backslash-quoted, 0x21..0x7E printed, everything else \\DDD")
+REG.spec("esc_qstring", _esc_smt(_QSTR_SPECIAL, 0x20, "qstring"), _esc_native(_QSTR_SPECIAL, 0x20),
+         "text of a quoted character-string: \" and \\ are backslash-quoted, 0x20..0x7E printed, everything else \\DDD")
